@@ -92,14 +92,14 @@ def literal_tokens(rng, tier):
         L.append(("0" + "7" * nd, "_wide")); L.append(("03" + "7" * (nd - 1), "_wide")); L.append(("04" + "0" * (nd - 1), "_wide"))
     L += [("1'000'000'000'000'000'000'000", "_wide"), ("0'17", "_wide")]
     for t in ["0", "1", "2", "10", "100", "1000", "1024", "65536", "4294967296", "18446744073709551615", "1.5", "0.5", ".5", "0.25", "0.125", "1.25", "10.0", "10.5", "1.0", "2.50", "0.1", "0.3", "3.14159", "123.456", "0.001",
-              "100.0", "1000000.5", "0.0009765625", "12345678901234567.5", "0.000000000000000001", "999999999999999999", "1234567890123456789", "0x10", "0b101", "017", "1'000.5", "0'17", "5.", "20.00", "300", "1200.0"]:
+              "100.0", "1000000.5", "0.0009765625", "12345678901234567.5", "0.000000000000000001", "999999999999999999", "1234567890123456789", "0x10", "0b101", "017", "1'000.5", "0'17", "5.", "20.00", "300", "1200.0", "0.12'5", "3.141'592'653", "1'0.2'5", "12.5'0", "0.000'001", "1'234.567'89"]:
         L.append((t, "_cnl"))
     for i in range(40 if tier == "quick" else 400):
         ip = rng.choice(["0", "1", "7", "12", "999", str(rng.randrange(10 ** rng.randrange(1, 18)))])
         fd = rng.randrange(0, 19)
         fp = "".join(rng.choice("0123456789") for _ in range(fd))
         L.append((ip + ("." + fp if fd else ""), "_cnl"))
-    for t in ["0", "1", "2", "3", "4", "8", "10", "1024", "65536", "1.5", "0.5", "0.25", "0.125", "1.25", "10.0", "10.5", "1.0", "2.50", "0.375", "0.0009765625", "3.0625", "0x10", "0b1000", "6.0", "96", "0.75"]:
+    for t in ["0", "1", "2", "3", "4", "8", "10", "1024", "65536", "1.5", "0.5", "0.25", "0.125", "1.25", "10.0", "10.5", "1.0", "2.50", "0.375", "0.0009765625", "3.0625", "0x10", "0b1000", "6.0", "96", "0.75", "2.5'0", "1'024.5", "0.12'5", "1'0.2'5"]:
         L.append((t, "_cnl2"))
     for i in range(30 if tier == "quick" else 300):
         j = rng.randrange(0, 20)
